@@ -70,6 +70,13 @@ func (n *c09node) build(allvars bool, red, ev, all map[string]interface{}) influ
 	if n.Op == "()" {
 		return &influxql.ParenExpr{Expr: n.L.build(allvars, red, ev, all)}
 	}
+	if n.Op == "same" || n.Op == "first" {
+		c := &influxql.Call{Name: n.Op, Args: []influxql.Expr{n.L.build(allvars, red, ev, all)}}
+		if n.R != nil {
+			c.Args = append(c.Args, n.R.build(allvars, red, ev, all))
+		}
+		return c
+	}
 	if n.Op != "" {
 		return &influxql.BinaryExpr{Op: c09tok[n.Op], LHS: n.L.build(allvars, red, ev, all), RHS: n.R.build(allvars, red, ev, all)}
 	}
@@ -128,6 +135,22 @@ func (n *c09node) neutralised() *c09node {
 	return &c
 }
 
+// c09Valuer is a MapValuer that also knows two pure functions: same(x) = x
+// and first(x, y) = x. Reduce may fold a call once all its arguments are
+// literals; the value must be the one the evaluator computes.
+type c09Valuer map[string]interface{}
+
+func (m c09Valuer) Value(key string) (interface{}, bool) { v, ok := m[key]; return v, ok }
+func (m c09Valuer) Call(name string, args []interface{}) (interface{}, bool) {
+	switch {
+	case name == "same" && len(args) == 1:
+		return args[0], true
+	case name == "first" && len(args) == 2:
+		return args[0], true
+	}
+	return nil, false
+}
+
 func sameValue(a, b interface{}) bool {
 	switch x := a.(type) {
 	case float64:
@@ -153,21 +176,21 @@ func c09Eval(spec *c09node) (problem string, panicked bool, stack string) {
 		red, ev, all := map[string]interface{}{}, map[string]interface{}{}, map[string]interface{}{}
 		ref := spec.build(true, nil, nil, all)
 		e := spec.build(false, red, ev, map[string]interface{}{})
-		refEval := influxql.ValuerEval{Valuer: influxql.MapValuer(all), IntegerFloatDivision: true}
+		refEval := influxql.ValuerEval{Valuer: c09Valuer(all), IntegerFloatDivision: true}
 		want := refEval.Eval(ref)
 		before := dumpOf(e)
-		reduced := influxql.Reduce(e, influxql.MapValuer(red))
+		reduced := influxql.Reduce(e, c09Valuer(red))
 		if dumpOf(e) != before {
 			problem = "Reduce modified its argument"
 			return
 		}
-		evr := influxql.ValuerEval{Valuer: influxql.MapValuer(ev), IntegerFloatDivision: true}
+		evr := influxql.ValuerEval{Valuer: c09Valuer(ev), IntegerFloatDivision: true}
 		got := evr.Eval(reduced)
 		if !sameValue(want, got) {
 			problem = fmt.Sprintf("Eval(e, all bindings)=%s but Eval(Reduce(e, some))=%s; reduced form: %s", showVal(want), showVal(got), reduced.String())
 			return
 		}
-		again := influxql.Reduce(reduced, influxql.MapValuer(red))
+		again := influxql.Reduce(reduced, c09Valuer(red))
 		if dumpOf(again) != dumpOf(reduced) {
 			problem = fmt.Sprintf("Reduce is not idempotent: once %s, twice %s", reduced.String(), again.String())
 			return
@@ -264,6 +287,13 @@ var c09wheres = []string{"lit", "reduce", "eval"}
 
 func genTree(rg *mon.Rng, kind string, depth int, ctr *int) *c09node {
 	leaf := depth <= 0 || rg.P(0.3)
+	if !leaf && rg.P(0.1) {
+		// a pure function of its (first) argument, known to the valuers
+		if rg.Bool() {
+			return &c09node{Op: "same", L: genTree(rg, kind, depth-1, ctr)}
+		}
+		return &c09node{Op: "first", L: genTree(rg, kind, depth-1, ctr), R: genTree(rg, []string{"I", "U", "F", "B", "S"}[rg.Intn(5)], depth-2, ctr)}
+	}
 	if !leaf {
 		var cands []c09rule
 		for _, ru := range c09rules {
@@ -294,7 +324,7 @@ func genTree(rg *mon.Rng, kind string, depth int, ctr *int) *c09node {
 
 func checkC09(c *Ctx) (string, bool, []string) {
 	r := c.R
-	rule := "exhaustive cells: every well-typed (operator, left kind, right kind) x boundary values x 3x3 placements (literal / bound through Reduce / bound at evaluation); random typed trees to depth 6 with parentheses; division and modulo by zero; time-arithmetic grid (timestamp forms x +,- x durations, differences, comparisons, now(), three zones). Non-trivial = at least one operator; distinct by serialised spec."
+	rule := "exhaustive cells: every well-typed (operator, left kind, right kind) x boundary values x 3x3 placements (literal / bound through Reduce / bound at evaluation); random typed trees to depth 6 with parentheses; division and modulo by zero; time-arithmetic grid (timestamp forms x +,- x durations, differences, comparisons, now(), three zones, each clock-and-zone supplied through four differently stacked valuers). Non-trivial = at least one operator; distinct by serialised spec."
 	assume := []string{"well-typed = boolean operators on booleans, arithmetic/ordering on numbers (any mix of integer, unsigned, float), bitwise on integer/unsigned or booleans, equality on like kinds", "reference value = ValuerEval with IntegerFloatDivision over all bindings"}
 	if c.Replay != nil {
 		local := map[string]int64{}
@@ -447,8 +477,21 @@ func c09TimeAll(c *Ctx, only string) {
 			r.Violation("time-arithmetic-not-exact", map[string]interface{}{"sub": "time", "input": text, "why": fmt.Sprintf("folds to %s, want %s", got.String(), want.String())})
 		}
 	}
-	for li, loc := range locs {
+	for li0 := 0; li0 < len(locs)*4; li0++ {
+		li, loc, shape := li0/4, locs[li0/4], li0%4
+		if loc == nil && shape > 1 {
+			continue
+		}
+		// the same clock and zone, supplied through differently stacked valuers
 		var valuer influxql.Valuer = &influxql.NowValuer{Now: now, Location: loc}
+		switch shape {
+		case 1:
+			valuer = influxql.MultiValuer(influxql.MapValuer{"x": int64(1)}, &influxql.NowValuer{Now: now, Location: loc})
+		case 2:
+			valuer = influxql.MultiValuer(influxql.MultiValuer(influxql.MapValuer{"x": int64(1)}), &influxql.NowValuer{Now: now, Location: loc})
+		case 3:
+			valuer = influxql.MultiValuer(&influxql.NowValuer{Now: now}, influxql.MultiValuer(influxql.MapValuer{}, &influxql.NowValuer{Now: now.Add(time.Hour), Location: loc}))
+		}
 		zone := time.UTC
 		if loc != nil {
 			zone = loc
